@@ -21,14 +21,18 @@ Arity(k) == IF k \in {"ChiSquared", "T", "Exponential", "Poisson", "Bernoulli"} 
 IntField(k, i) == \/ k \in {"ChiSquared", "DiscreteUniform"}
                   \/ (k = "Binomial" /\ i = 1)
 
+\* a parameter tuple may carry, after its Arity(k) fields, the denominator its real-valued fields are expressed in (rows of the
+\* reference table for rare-event / slow-rate regimes); without it the fields are quarters
+Den(k, p) == IF Len(p) > Arity(k) THEN p[Arity(k) + 1] ELSE 4
+
 Valid(k, p) ==
   CASE k = "Normal"          -> p[2] >= 0
     [] k \in {"Gamma", "Beta", "Pareto"} -> p[1] > 0 /\ p[2] > 0
     [] k \in {"ChiSquared", "T", "Exponential", "Poisson"} -> p[1] > 0
     [] k = "Gumbel"          -> p[2] > 0
     [] k \in {"Uniform", "DiscreteUniform"} -> p[1] <= p[2]
-    [] k = "Binomial"        -> p[1] >= 0 /\ p[2] >= 0 /\ p[2] <= 4
-    [] k = "Bernoulli"       -> p[1] >= 0 /\ p[1] <= 4
+    [] k = "Binomial"        -> p[1] >= 0 /\ p[2] >= 0 /\ p[2] <= Den(k, p)
+    [] k = "Bernoulli"       -> p[1] >= 0 /\ p[1] <= Den(k, p)
 
 CacheOf(k, p) == CASE k = "Beta" -> <<p[1], p[2]>>        \* Gamma(alpha, 1), Gamma(beta, 1)
                    [] k = "ChiSquared" -> <<p[1]>>         \* Gamma(dof / 2, 1/2)
